@@ -593,6 +593,7 @@ type vc14Cfg struct {
 // tracker's postCommitUnlocked (first stage / second stage / pruning): the spot where the harness pulls the plug.
 type vc14Blocker struct {
 	emptyTracker
+	w       *vc14World
 	mu      sync.Mutex
 	armed   bool
 	entered chan struct{}
@@ -600,6 +601,22 @@ type vc14Blocker struct {
 }
 
 func (b *vc14Blocker) postCommitUnlocked(ctx context.Context, dcc *deferredCommitContext) {
+	// the first-stage rows the catchpoints of this commit are about to use (and prune): a recovery followed by
+	// the flush of replay() completes a first stage and consumes it inside ONE harness operation, so this is the
+	// only place where its digests (needed for the oracle label) can be seen
+	if w := b.w; w != nil && w.ct != nil && w.ct.catchpointStore != nil {
+		lo := uint64(0)
+		if uint64(dcc.oldBase) > w.h.proto.lookback {
+			lo = uint64(dcc.oldBase) - w.h.proto.lookback
+		}
+		for r := lo; r <= uint64(dcc.newBase()); r++ {
+			if _, seen := w.firsts[r]; !seen {
+				if fi, ok, err := w.ct.catchpointStore.SelectCatchpointFirstStageInfo(ctx, basics.Round(r)); err == nil && ok {
+					w.firsts[r] = fi
+				}
+			}
+		}
+	}
 	b.mu.Lock()
 	armed := b.armed
 	b.armed = false
@@ -657,6 +674,7 @@ type vc14World struct {
 	labels   map[uint64]string
 	firsts   map[uint64]trackerdb.CatchpointFirstStageInfo
 	trieErrs int
+	lastLogs string // tracker log of the last observed operation
 }
 
 func vc14Open(t *testing.T, h *vc14History, cfg vc14Cfg) *vc14World {
@@ -690,7 +708,8 @@ func (w *vc14World) openTrackers(first bool) {
 	} else {
 		w.ml.trackers = trackerRegistry{log: w.log}
 	}
-	w.blk = &vc14Blocker{}
+	w.blk = &vc14Blocker{w: w}
+	w.ct = ct
 	err := w.ml.trackers.initialize(w.ml, []ledgerTracker{au, w.blk, ct, ao, &txTail{}}, w.conf)
 	require.NoError(w.t, err)
 	err = w.ml.trackers.loadFromDisk(w.ml)
@@ -843,6 +862,9 @@ func (w *vc14World) observe() []interface{} {
 		}
 	}
 	logs := w.sink.take()
+	w.lastLogs = logs
+	// the harness (and the model) take every scheduled commit to succeed: a failed tracker commit is a harness error
+	require.NotContains(w.t, logs, "Could not commit round", "tracker commit failed: %s", logs[max(0, len(logs)-3000):])
 	w.trieErrs += len(vc14TrieErrRe.FindAllString(logs, -1))
 	labels := vL()
 	for _, m := range vc14LabelRe.FindAllStringSubmatch(logs, -1) {
